@@ -25,6 +25,9 @@ import (
 	"go.pennock.tech/tabular/texttable/decoration"
 )
 
+// sharedItems is spread into AddRowItems by every goroutine; nobody but the library could write to it
+var sharedItems = []interface{}{"shared", []byte("bytes"), 7, strer{"s"}, nil}
+
 type strer struct{ s string }
 
 func (s strer) String() string { return s.s }
@@ -63,6 +66,8 @@ func buildAndRender(seed uint64, styles []string) []string {
 		}
 		t.AddRow(row)
 	}
+	// values every goroutine hands to its own table from one shared, read-only argument list
+	t.AddRowItems(sharedItems[:ncols]...)
 	if r.chance(1, 2) {
 		t.Column(0).SetProperty(align.PropertyType, align.Right)
 	}
